@@ -73,4 +73,42 @@ Definition lin_step_ok (order : nat) (i : istate) (me : tid) : Prop :=
     (forall o r, call_in_flight (is_st i) me = Some o -> is_scan o = false -> In (EReturn r) ev ->
         exists x, gget (is_ghost i') me = Some x /\ ores_of_obs x = r).
 
+(* the answer the specification gives at a linearization point agrees with what the step returns (a Search that
+   is linearized early, when it is routed below a node's separator, is promised "absent") *)
+Definition lp_result_ok (po : op K V) (x : obs V) (ret : option (ores K V)) : Prop :=
+  match po, ret with
+  | OInsert _ _, Some RUnit => x = ObsUnit
+  | OUpdate _ _, Some (RArg _ a) => x = ObsArg a
+  | ODelete _, _ => x = ObsUnit
+  | OSearch _, Some (RFound _ a) => x = ObsFound a
+  | OSearch _, None => x = ObsFound None
+  | _, _ => False
+  end.
+
+(* the abstraction commutes with every step: unchanged unless the step is a linearization point, where it
+   changes as the specification says and the returned value (if the call returns now) is the specification's *)
+Definition abs_step_ok (order : nat) (s : st) (me : tid) : Prop :=
+  forall s' acq ev, cstep ltb order s me = Stepped s' acq ev ->
+    match lp_step ltb s me acq ev s' with
+    | None => abs ltb s' = abs ltb s
+    | Some po => abs ltb s' = fst (step_spec ltb (abs ltb s) po) /\
+                 lp_result_ok po (snd (step_spec ltb (abs ltb s) po)) (returns ev)
+    end.
+
+(* a Search already routed below a separator stays so and finally answers "absent" *)
+Definition decided (s : st) (t : tid) : bool :=
+  match get_thread t (ths s) with
+  | Some th => match tpc th with
+               | SeaWantChild (CSearch k) pn _ => below_lo ltb k pn (tr s)
+               | _ => false end
+  | None => false end.
+
+Definition promise_step_ok (order : nat) (s : st) (me : tid) : Prop :=
+  forall s' acq ev, cstep ltb order s me = Stepped s' acq ev ->
+    (* own step of a decided Search *)
+    (decided s me = true ->
+       match returns ev with Some r => r = RFound K None | None => decided s' me = true end) /\
+    (* other threads stay decided / undecided *)
+    (forall t, t <> me -> decided s' t = decided s t).
+
 End LinDef.
